@@ -593,6 +593,7 @@ class Ctx(object):
             distributions=self.dist,
             model_vs_impl_mismatches=len(self.mismatches),
             mismatch_samples=[w for w, _ in self.mismatches[:4]],
+            harness_errors=[m[-600:] for m in self.model_errors[:3]],
             impl_failure_keys=sorted(set(str(k) for k, _, _ in self.impl_violations)),
             impl_property_failures=len(self.impl_violations),
             known_findings_hit={k: v[1] for k, v in self.known_hit.items()},
